@@ -43,24 +43,24 @@ Theorem C05_lin_injective : forall dims i1 i2, in_dims dims i1 -> in_dims dims i
 Proof. exact linH_inj. Qed.
 Print Assumptions C05_lin_injective.
 
-(* PAIRING + FRAME, write (cgio_write_data): for any two ranks / shapes / strides with equal point counts
-   the k-th addressed file element receives the k-th addressed memory element and every other file element is
-   unchanged.  [stride_ok ADF _ = True]; [stride_ok ADFH ds] = every stride divides its extent. *)
+(* PAIRING + FRAME, write (cgio_write_data), ADF and the current ADFH, ALL strides >= 1: for any two ranks /
+   shapes / strides with equal point counts the k-th addressed file element receives the k-th addressed memory
+   element and every other file element is unchanged.  [current b] = b <> ADFH_OLD. *)
 Theorem C05_frame_pairing_write : forall b file mem sds mds,
-  sel_ok sds -> sel_ok mds -> stride_ok b sds -> stride_ok b mds ->
+  current b -> sel_ok sds -> sel_ok mds ->
   lenZ file = prodZ (dims_of sds) -> prodZ (counts sds) = prodZ (counts mds) ->
   exists file', xfer_write b file mem sds mds = inr file' /\
                 transfers file file' mem (spec_positions sds) (spec_positions mds).
-Proof. exact lo_write_any. Qed.
+Proof. exact lo_write_cur. Qed.
 Print Assumptions C05_frame_pairing_write.
 
 (* PAIRING + FRAME, read (cgio_read_data_type): memory outside the memory selection is unchanged. *)
 Theorem C05_frame_pairing_read : forall b file mem sds mds,
-  sel_ok sds -> sel_ok mds -> stride_ok b sds -> stride_ok b mds ->
+  current b -> sel_ok sds -> sel_ok mds ->
   lenZ mem = prodZ (dims_of mds) -> prodZ (counts sds) = prodZ (counts mds) ->
   exists mem', xfer_read b file mem sds mds = inr mem' /\
                transfers mem mem' file (spec_positions mds) (spec_positions sds).
-Proof. exact lo_read_any. Qed.
+Proof. exact lo_read_cur. Qed.
 Print Assumptions C05_frame_pairing_read.
 
 (* Low-level rejection (ADF): a rank outside 1..12 or a range that leaves the array (either side), or unequal
@@ -72,9 +72,15 @@ Proof. exact lo_invalid_adf. Qed.
 Print Assumptions C05_lo_invalid_rejected.
 
 Theorem C05_lo_unequal_rejected : forall b sds mds,
-  sel_ok sds -> sel_ok mds -> stride_ok b sds -> stride_ok b mds ->
+  current b -> sel_ok sds -> sel_ok mds ->
   prodZ (counts sds) <> prodZ (counts mds) -> lo_pairs b sds mds = inl UnequalDims.
-Proof. exact lo_unequal_any. Qed.
+Proof. exact lo_unequal_cur. Qed.
+Print Assumptions C05_lo_unequal_rejected.
+
+(* ADFH (either variant) rejects every selection that is not inside the array *)
+Theorem C05_adfh_invalid_rejected : forall v u ds, Forall (fun d => 0 <= d_end d < W64) ds -> ~ valid ds ->
+  exists e, adfh_check v u ds = Some e.
+Proof. exact adfh_check_invalid. Qed.
 Print Assumptions C05_lo_unequal_rejected.
 
 Theorem C05_lo_rejected_transfers_nothing : forall b file mem sds mds e,
@@ -98,7 +104,7 @@ Theorem C05_verify_range_complete : forall op old sd md,
 Proof. exact verify_range_complete. Qed.
 Print Assumptions C05_verify_range_complete.
 
-(* End to end at the mid level (cgi_array_general_write / _read over either back end, equal data types): an accepted
+(* End to end at the mid level (cgi_array_general_write / _read over any back end variant, equal data types): an accepted
    request changes exactly the elements of the shifted box -- through the partial path or through the
    full-array shortcut alike -- pairing them in Fortran order with the memory box. *)
 Theorem C05_mid_write : forall b old sd md file mem,
@@ -130,25 +136,36 @@ Theorem C05_full_box_is_whole_array : forall ds, valid ds -> Forall dfull ds ->
 Proof. exact spec_positions_full. Qed.
 Print Assumptions C05_full_box_is_whole_array.
 
-(* ADFH agrees with ADF when every stride divides its extent (in particular for the unit strides of the mid
-   level), once the dimension reversal is undone. *)
-Theorem C05_adfh_agrees : forall u ds, sel_ok ds ->
-  Forall (fun d => (d_end d - d_start d + 1) mod d_stride d = 0) ds ->
-  adfh_walk u ds = inr (spec_positions ds).
-Proof. exact adfh_walk_ok. Qed.
+(* The CURRENT ADFH code (commit 358f914: count = (end - start) / stride + 1, only stride < 1 rejected) asks HDF5
+   for exactly the positions ADF visits, for ALL strides >= 1, once the dimension reversal is undone. *)
+Theorem C05_adfh_agrees : forall u ds, sel_ok ds -> adfh_walk AdfhCur u ds = inr (spec_positions ds).
+Proof. exact adfh_cur_walk_ok. Qed.
 Print Assumptions C05_adfh_agrees.
 
-(* ... and DISAGREES otherwise: the faithful models of the two back ends differ on 1:5:2 (3 elements on ADF,
-   floor(5/2) = 2 selected by ADFH, hence error 49 when read into 3 elements) and on 2:3:4 (one element on ADF,
-   BAD_STRIDE_VALUE on ADFH).  Known defect (KNOWN_FINDINGS key adfh-stride-count-floor). *)
+(* The code before 358f914 agreed only when every stride divides its extent ... *)
+Theorem C05_adfh_old_agrees_if_divisible : forall u ds, sel_ok ds ->
+  Forall (fun d => (d_end d - d_start d + 1) mod d_stride d = 0) ds ->
+  adfh_walk AdfhOld u ds = inr (spec_positions ds).
+Proof. exact adfh_old_walk_ok. Qed.
+Print Assumptions C05_adfh_old_agrees_if_divisible.
+
+(* ... and DISAGREED otherwise (HISTORICAL witness, on the OLD variant; repaired by 358f914): 1:5:2 (3 elements
+   on ADF, floor(5/2) = 2 selected, hence error 49 when read into 3 elements), 2:3:4 (one element on ADF,
+   BAD_STRIDE_VALUE), and the write 2:4:2 from 1:4:3 (2 elements on ADF, 1 on old ADFH).  The current variant
+   gives ADF's answers on all three. *)
 Theorem C05_adfh_stride_refuted :
   sel_ok wit_s /\ sel_ok wit_m /\
-  adf_walk w64 wit_s = inr [0; 2; 4] /\ adfh_walk true wit_s = inr [0; 2] /\
+  adf_walk w64 wit_s = inr [0; 2; 4] /\ adfh_walk AdfhOld true wit_s = inr [0; 2] /\
   xfer_read ADF [10; 20; 30; 40; 50] [0; 0; 0] wit_s wit_m = inr [10; 30; 50] /\
-  xfer_read ADFH [10; 20; 30; 40; 50] [0; 0; 0] wit_s wit_m = inl UnequalDims /\
+  xfer_read ADFH_OLD [10; 20; 30; 40; 50] [0; 0; 0] wit_s wit_m = inl UnequalDims /\
+  xfer_read ADFH [10; 20; 30; 40; 50] [0; 0; 0] wit_s wit_m = inr [10; 30; 50] /\
   sel_ok wit_s2 /\ sel_ok wit_m2 /\
   xfer_read ADF [10; 20; 30; 40; 50] [0] wit_s2 wit_m2 = inr [20] /\
-  xfer_read ADFH [10; 20; 30; 40; 50] [0] wit_s2 wit_m2 = inl BadStride.
+  xfer_read ADFH_OLD [10; 20; 30; 40; 50] [0] wit_s2 wit_m2 = inl BadStride /\
+  xfer_read ADFH [10; 20; 30; 40; 50] [0] wit_s2 wit_m2 = inr [20] /\
+  xfer_write ADF [10; 20; 30; 40; 50] [1; 2; 3; 4] [mkD 5 2 4 2] [mkD 4 1 4 3] = inr [10; 1; 30; 4; 50] /\
+  xfer_write ADFH_OLD [10; 20; 30; 40; 50] [1; 2; 3; 4] [mkD 5 2 4 2] [mkD 4 1 4 3] = inr [10; 1; 30; 40; 50] /\
+  xfer_write ADFH [10; 20; 30; 40; 50] [1; 2; 3; 4] [mkD 5 2 4 2] [mkD 4 1 4 3] = inr [10; 1; 30; 4; 50].
 Proof. exact adfh_stride_refuted. Qed.
 Print Assumptions C05_adfh_stride_refuted.
 
